@@ -674,9 +674,12 @@ Definition mon_obs (m : mon) (e : cobs) : mon :=
   | KDisp _ (Client.DReady _) | KStream _ KEnd | KStream _ (KErr _) =>
     mkmon (mo_now m) (mo_calls m) (mo_started m) (mo_ended m) true
           (mo_wire m) (mo_c04 m) (mo_c18 m) (mo_c07 m) (mo_c18w m) (mo_fuel m)
-  | KDisp _ Client.DFuel | KStream _ KFuel | KRounds | KOracle _ | KPanic =>
+  | KDisp _ Client.DFuel | KStream _ KFuel | KRounds =>
     mkmon (mo_now m) (mo_calls m) (mo_started m) (mo_ended m) true
           (mo_wire m) (mo_c04 m) (mo_c18 m) (mo_c07 m) (mo_c18w m) false
+  | KOracle _ | KPanic =>
+    mkmon (mo_now m) (mo_calls m) (mo_started m) (mo_ended m) true
+          (mo_wire m) (mo_c04 m) (mo_c18 m) (mo_c07 m) (mo_c18w m) (mo_fuel m)
   | _ => m
   end.
 
@@ -713,6 +716,6 @@ Definition c07c_ok (d : nat) (ops : list cop) (tr : list (list cobs)) : bool :=
   match mon_run mon0 ops tr with Some m => mo_c07 m | None => false end.
 Definition c18w_ok (d : nat) (ops : list cop) (tr : list (list cobs)) : bool :=
   match mon_run mon0 ops tr with Some m => mo_c18w m | None => false end.
-(* no poll ran out of fuel, no SettleAll out of rounds, the timer oracle never disagreed *)
+(* no poll ran out of fuel, no SettleAll out of rounds *)
 Definition cfuel_ok (d : nat) (ops : list cop) (tr : list (list cobs)) : bool :=
   match mon_run mon0 ops tr with Some m => mo_fuel m | None => false end.
